@@ -195,6 +195,12 @@ func Replace(name string, fn interface{}) {}
 // set-up before it runs under one schedule only, which is stated in the bounds). Native: no-op.
 func Schedules(on bool) {}
 
+// SymbolicClock(true): under the engine every later reading of the clock (time.Now, time.Since, time.Until)
+// is an arbitrary instant no earlier than the previous reading — the time that passes between two steps of
+// the scenario becomes a solver variable. Native: no-op (a counterexample that needs time to pass is
+// reported as an engine trace).
+func SymbolicClock(on bool) {}
+
 // RacyScope makes every shared-memory access of functions whose name contains scope a scheduling
 // point under the engine (no effect natively).
 func RacyScope(scope string) {}
